@@ -65,6 +65,13 @@ class Sched(object):
         self.waiting = {}
         self.tracebacks = []
         self.max_points = 40000
+        # line-level preemption (chooser kinds ending in "+line"): with probability line_p the running logical thread
+        # offers the baton before a LINE of library code, not only before a visible operation
+        self.line_p = getattr(chooser, "line_p", 0.0)
+        self.line_rng = random.Random(getattr(chooser, "line_seed", 0)) if self.line_p else None
+        self.line_switches = 0
+        if self.line_p:
+            self.max_points = 400000
 
     # ---- naming --------------------------------------------------------------------------
     def name(self, obj, role):
@@ -132,6 +139,47 @@ def me():
         # machine) must never take part in the current one: it ends here
         raise Abort()
     return lt
+
+
+_LIB_DIR = None
+
+
+def _lib_dir():
+    global _LIB_DIR
+    if _LIB_DIR is None:
+        import os, more_executors._impl as _p
+        _LIB_DIR = os.path.dirname(os.path.abspath(_p.__file__)) + os.sep
+    return _LIB_DIR
+
+
+def _line_tracer(frame, event, arg):
+    if event == "line":
+        s = S
+        if frame.f_code.co_name == "__init__":
+            # a library future is named (r<k> / M<k>) inside _Future.__init__, and the scenario that constructs it has
+            # already announced the index it will get: no baton offer between the announcement and the naming
+            me_ = frame.f_locals.get("self")
+            if me_ is not None and hasattr(type(me_), "_me_invoke_callbacks") and "_verif_id" not in getattr(me_, "__dict__", {}):
+                return _line_tracer
+        if s is not None and s.line_rng is not None and not s.aborting and not s.quiet:
+            cur = getattr(_local, "lt", None)
+            if cur is not None and cur.s is s and cur.blocked_on is None and s.line_rng.random() < s.line_p:
+                s.line_switches += 1
+                switch("line")
+    return _line_tracer
+
+
+def _call_tracer(frame, event, arg):
+    # only frames of the library under test are traced line by line (the scheduler, the scenario code, the stdlib and
+    # the instrumented primitives are not)
+    if frame.f_code.co_filename.startswith(_lib_dir()):
+        return _line_tracer
+    return None
+
+
+def _trace_on(s):
+    if s.line_rng is not None:
+        sys.settrace(_call_tracer)
 
 
 def switch(op=None):
@@ -509,6 +557,7 @@ class DThread(object):
             lt.sem.acquire()
             _local.lt = lt
             try:
+                _trace_on(s)
                 if not s.aborting:
                     target(*args, **kwargs)
             except Abort:
@@ -813,6 +862,7 @@ def run(chooser, main_fn, real_timeout=180.0):
         lt.sem.acquire()
         _local.lt = lt
         try:
+            _trace_on(s)
             main_fn()
         except Abort:
             pass
@@ -848,6 +898,7 @@ def run(chooser, main_fn, real_timeout=180.0):
     res.tracebacks = list(s.tracebacks)
     res.now = s.now
     res.npoints = s.npoints
+    res.line_switches = s.line_switches
     res.preempts = s.preempts
     res.threads = [(t.name, t.done, type(t.exc).__name__ if t.exc is not None else None) for t in s.threads.values()]
     S = None
@@ -917,7 +968,18 @@ def script_chooser(script, fallback=None):
     return ch
 
 
+LINE_P = 0.03
+
+
 def make_chooser(kind, seed):
+    if kind.endswith("+line"):
+        base = make_chooser(kind[:-5], seed)
+
+        def ch(s, cand, cur):
+            return base(s, cand, cur)
+        ch.line_p = LINE_P
+        ch.line_seed = seed ^ 0x5bd1e995
+        return ch
     if kind == "random":
         return random_chooser(seed)
     if kind == "sticky":
